@@ -97,3 +97,4 @@ class Struct:
     ctab: bool = False          # emit compile-time tables (C15)
     keep_names: bool = False    # keep the field names given by the enumerator (NAMES family)
     derives: str = ''           # user derives passed through the macro, e.g. '#[derive(PartialEq, Eq)]'
+    vis: str = 'pub'            # struct visibility: 'pub' | 'pub(crate)' | '' (private)
